@@ -153,11 +153,44 @@ var dests = []string{"/u", "http://x.y/z", "a/b", "#frag", "/p?q=1&r=2", "/my ur
 // as the last character of the destination.
 var plainDests = []string{"/u", "http://x.y/z", "a/b", "#frag", "/p?q=1", "u", "/a_b", "/é", "/caf\u00e9", "/a|b|", "x%20y", "/p?q=1&r=2", "/100%", "/x%4", "/q\"r", "/x\\y", "/%C3%A9"}
 
+// destUnits are the pieces of composed destinations: safe runs, characters that
+// NormalizeURI has to encode (ASCII and non-ASCII), complete, truncated and
+// malformed percent escapes, entity-looking and markup-looking characters. A
+// destination made of two to four of them puts every kind of piece before and
+// after every other kind (an escape after a character to encode, an encoded
+// character last, ...), which the fixed pool above cannot. plainDestUnits is the
+// subset the formatter can write back.
+var plainDestUnits = []string{"/", "a", "b.c", "?q=1", "&r=2", "#f", "é", "ß", "\U00010100", "%20", "%C3%A9", "%4", "%", "%zz", "%e", "|", "\"", "\\", "*", "_", "~", "'", "+", ":", "@", "=", "$", ",", ";", "!", "[", "]", "^", "`", "{", " ", "(b)", ">", "<"}
+var destUnits = append(append([]string{}, plainDestUnits...), "(", ")")
+
 func (g *Gen) dest() string {
+	pool, units := dests, destUnits
 	if g.R.PlainDests {
-		return plainDests[g.pick("dest", len(plainDests))]
+		pool, units = plainDests, plainDestUnits
 	}
-	return dests[g.pick("dest", len(dests))]
+	if g.pick("destkind", 2) == 0 {
+		return pool[g.pick("dest", len(pool))]
+	}
+	var sb strings.Builder
+	open := 0
+	for n := 2 + g.pick("destn", 3); n > 0; n-- {
+		u := units[g.pick("destunit", len(units))]
+		// keep parentheses balanced (a bare destination needs that)
+		if u == ")" {
+			if open == 0 {
+				continue
+			}
+			open--
+		}
+		if u == "(" {
+			open++
+		}
+		sb.WriteString(u)
+	}
+	for ; open > 0; open-- {
+		sb.WriteString(")")
+	}
+	return sb.String()
 }
 
 var autolinks = []string{"http://a.b/c", "mailto:x@y.z", "foo@bar.example.com", "ab:c?d=e&f", "https://e.x/a%20b", "x+y@z.w", "scheme:é\"q"}
